@@ -43,16 +43,19 @@ class World:
         self.signer = self.ca.issue('/C=EE/O=Guardtime AS/CN=pub.example/emailAddress=publications@guardtime.test')
         self.signer2 = self.ca.issue('/C=EE/O=Other Org/CN=other.example/emailAddress=other@guardtime.test')
         self.foreign = self.ca2.issue('/C=EE/O=Guardtime AS/CN=pub.example/emailAddress=publications@guardtime.test')
+        # a foreign signer whose certificate is larger than the genuine one: in a PKCS#7 bag that holds both (a SET OF, written in the order of the
+        # encodings) the genuine certificate then stands first
+        self.foreign_big = self.ca2.issue('/C=EE/O=Guardtime AS/OU=%s/CN=pub.example/emailAddress=publications@guardtime.test' % ('unit' * 12), name='foreignbig')
         self.certs = [self.signer, self.signer2, self.foreign]
 
 
 WORLD = None
 
 
-def build(records_before, signer, work, sign_range=None, after=()):
+def build(records_before, signer, work, sign_range=None, after=(), extra_certs=None):
     """file = magic | records_before | signature(P7 over sign_range or magic|records_before) | after"""
     body = MAGIC + b''.join(x.enc() for x in records_before)
-    p7 = signer.pkcs7_detached(body if sign_range is None else sign_range, work)
+    p7 = signer.pkcs7_detached(body if sign_range is None else sign_range, work, extra_certs=extra_certs)
     return body + sig_rec(p7).enc() + b''.join(x.enc() for x in after), len(body), p7
 
 
@@ -178,9 +181,14 @@ def trust_part(job, r):
     subj = {EMAIL: 'publications@guardtime.test', CN: 'pub.example', ORG: 'Guardtime AS', COUNTRY: 'EE'}
     for i in range(n):
         recs = [hdr()] + [cert_rec(w.signer)] * rng.randint(0, 1) + [pub_rec(1500000000 + j * 86400 * 30, gen.rnd_imprint(rng, 1)) for j in range(rng.randint(0, 3))]
-        signer = rng.choice([w.signer, w.signer, w.signer, w.foreign, w.signer2])
+        signer = rng.choice([w.signer, w.signer, w.signer, w.foreign, w.signer2, w.foreign_big])
         if i < 4:
             signer = w.signer
+        # the PKCS#7 structure may carry further certificates (the bag is not signed): a foreign signer brings the genuine, trusted certificate along.
+        # Only the certificate whose key made the signature counts
+        extra = w.signer.pem if signer in (w.foreign, w.foreign_big) and rng.random() < 0.6 else None
+        if extra:
+            r.count('foreign_signer_with_genuine_certificate_in_the_bag' + ('_first' if signer is w.foreign_big else ''))
         body = MAGIC + b''.join(x.enc() for x in recs)
         range_kind = rng.choice(['exact', 'exact', 'exact', 'minus-last-byte', 'plus-sig-header', 'without-magic', 'other-data'])
         if i < 4:
@@ -196,12 +204,12 @@ def trust_part(job, r):
         else:
             rangeb = body + b'x'
         if rangeb is None:
-            p7 = signer.pkcs7_detached(body, work)
+            p7 = signer.pkcs7_detached(body, work, extra_certs=extra)
             head = sig_rec(p7).enc()[:4]
-            p7 = signer.pkcs7_detached(body + head, work)
+            p7 = signer.pkcs7_detached(body + head, work, extra_certs=extra)
             raw = body + sig_rec(p7).enc()
         else:
-            raw, _, p7 = build(recs, signer, work, sign_range=rangeb)
+            raw, _, p7 = build(recs, signer, work, sign_range=rangeb, extra_certs=extra)
         anchors = rng.choice(['good', 'good', 'good', 'other', 'none', 'both'])
         if i < 4:
             anchors = ('good', 'both')[i % 2]
@@ -285,7 +293,7 @@ def trust_part(job, r):
         trusted = v.rc == 0
         r.observe((range_kind, anchors, cons_kind, signer is w.signer, api, trusted, parse_ctx))
         r.count('verify_%s' % ('trusted' if trusted else 'untrusted'))
-        replay = 'file-specific-constraints=%s ' % (fs and fs[0],) + 'parsed-in-other-context=%d range=%s anchors=%s constraints=%s signer=%s api=%s file=%s' % (parse_ctx, range_kind, anchors, cons, 'good' if signer is w.signer else ('foreign-ca' if signer is w.foreign else 'other-subject'), api, raw.hex())
+        replay = 'file-specific-constraints=%s ' % (fs and fs[0],) + 'parsed-in-other-context=%d range=%s anchors=%s constraints=%s signer=%s api=%s file=%s' % (parse_ctx, range_kind, anchors, cons, 'good' if signer is w.signer else ('foreign-ca' if signer in (w.foreign, w.foreign_big) else 'other-subject') + (' +genuine-certificate-in-bag' if extra else ''), api, raw.hex())
         if trusted and not should:
             why = ('signed-range-' + range_kind) if range_kind != 'exact' else ('untrusted-anchor' if not chain_ok else ('no-constraints' if not cons else 'constraint-mismatch:' + cons_kind))
             r.viol('verify:%s:trusted%s' % (why, ':parsed-in-other-context' if parse_ctx else ''), 'publications file reported trusted although %s' % why, replay)
@@ -460,4 +468,4 @@ def run(ctx):
     c = ctx.counters
     if not ctx.violations and not ctx.known_printed:
         ctx.require(c.get('valid_files_trusted', 0) >= 20 and c.get('verify_trusted', 0) >= 10 and c.get('verify_untrusted', 0) >= 50, 'trusted and untrusted verdicts observed')
-        ctx.require(c.get('flip_signed-range_untrusted', 0) >= 150 and c.get('lookups', 0) >= 1000 and c.get('lookups_by_record_tie', 0) >= 20, 'byte changes and lookups executed')
+        ctx.require(c.get('flip_signed-range_untrusted', 0) >= 150 and c.get('lookups', 0) >= 1000 and c.get('lookups_by_record_tie', 0) >= 20 and c.get('foreign_signer_with_genuine_certificate_in_the_bag_first', 0) >= 3, 'byte changes and lookups executed')
